@@ -275,17 +275,22 @@ func extractTermsAux(ctx *Context, x interface{}, terms StringSet, depth int) {
 func (s *IndexedState) Add(ctx *Context, id string, x Map) (string, error) {
 	Log(DEBUG, ctx, "IndexedState.Add", "state", s.Name, "factx", x, "id", id)
 	s.uncacheRule(id)
-	s.slock(ctx, false)
-	id, err := s.add(ctx, id, x)
 	var js []byte
-	if err == nil {
-		// Store the fact as prepared, with its absolute
-		// expiration.  The given 'x' might have a relative
-		// "ttl", which would start again at the next Load.
-		fact := s.IdToFact[id]
-		js, err = json.Marshal(&fact)
-	}
-	s.sunlock(ctx, false)
+	id, err := func() (string, error) {
+		// The unlock is deferred so that a panic below cannot
+		// leave the state locked for ever.
+		s.slock(ctx, false)
+		defer s.sunlock(ctx, false)
+		id, err := s.add(ctx, id, x)
+		if err == nil {
+			// Store the fact as prepared, with its absolute
+			// expiration.  The given 'x' might have a relative
+			// "ttl", which would start again at the next Load.
+			fact := s.IdToFact[id]
+			js, err = json.Marshal(&fact)
+		}
+		return id, err
+	}()
 
 	if nil != err {
 		return "", err
@@ -376,12 +381,22 @@ func GetRulePatterns(ctx *Context, rule map[string]interface{}) []map[string]int
 	if !have {
 		return nil
 	}
-	when := eventPattern.(map[string]interface{})
+	// A 'when' (or its 'pattern') that is not a map is not a
+	// pattern: report "no patterns" instead of panicking on the
+	// type assertion.  indexRule then answers with its syntax
+	// error and unindexRule has nothing to remove.
+	when, ok := eventPattern.(map[string]interface{})
+	if !ok {
+		return nil
+	}
 	events := make([]map[string]interface{}, 0, 1)
 	p, fromQuery := when["pattern"]
-	// ToDo: Better type processing.
 	if fromQuery {
-		events = append(events, p.(map[string]interface{}))
+		m, ok := p.(map[string]interface{})
+		if !ok {
+			return nil
+		}
+		events = append(events, m)
 	} else {
 		events = append(events, when)
 	}
@@ -662,10 +677,9 @@ func (s *IndexedState) Search(ctx *Context, pattern Map) (*SearchResults, error)
 	defer timer.Stop()
 
 	s.slock(ctx, true)
-	srs, err := s.search(ctx, pattern)
-	s.sunlock(ctx, true)
+	defer s.sunlock(ctx, true)
 
-	return srs, err
+	return s.search(ctx, pattern)
 }
 
 func (s *IndexedState) search(ctx *Context, pattern Map) (*SearchResults, error) {
